@@ -17,6 +17,7 @@ class StoreGen:
         self.unit = unit or rnd.choice(UNITS)
         self.now = 0
         self.nonces = []  # values used so far
+        self.high = {}    # identity -> highest nonce issued
         self.ops = []
         self.registered = set()
 
@@ -27,6 +28,7 @@ class StoreGen:
         self.ops.append(op)
         self.now = 0
         self.nonces = []
+        self.high = {}
         self.registered = set()
 
     def node(self, prefer_registered=0.8):
@@ -79,6 +81,11 @@ class StoreGen:
             v = (self.now + delta) * 1000 + r.choice([0, 1, 500, 999])
         self.nonces.append(v)
         self.ops.append({"op": "Nonce", "ident": ident, "v": v, "wallet": wallet})
+        hw = self.high.get(ident)
+        if hw is not None and v < hw and r.random() < 0.7:
+            # after a nonce below the identity's highest (refused, whatever the reason) the highest one again: refused
+            self.ops.append({"op": "Nonce", "ident": ident, "v": hw, "wallet": wallet})
+        self.high[ident] = max(v, hw) if hw is not None else v
 
     def random_op(self):
         r = self.r
